@@ -91,6 +91,10 @@ class ColumnBackend(ArraySchemaBackend):
                     error_handler.collect_error(
                         validation_type(err.reason_code), err.reason_code, err
                     )
+                if return_check_obj:
+                    # the parsed object, so that what the parsers produced
+                    # is not lost when a check fails in lazy mode
+                    return errs.data
             except SchemaError as err:
                 err.column_name = column_name
                 error_handler.collect_error(
@@ -130,21 +134,24 @@ class ColumnBackend(ArraySchemaBackend):
                         column_name,
                         return_check_obj=True,
                     )
-                    if schema.parsers:
+                    # validate_column returns None when it collected errors
+                    if schema.parsers and validated_column is not None:
                         check_obj[column_name] = validated_column
             else:
                 if getattr(schema, "drop_invalid_rows", False):
                     # replace the check_obj with the validated
-                    check_obj = validate_column(
+                    validated_obj = validate_column(
                         check_obj, column_name, return_check_obj=True
                     )
+                    if validated_obj is not None:
+                        check_obj = validated_obj
 
                 validated_column = validate_column(
                     check_obj,
                     column_name,
                     return_check_obj=True,
                 )
-                if schema.parsers:
+                if schema.parsers and validated_column is not None:
                     check_obj[column_name] = validated_column
 
         if lazy and error_handler.collected_errors:
